@@ -211,6 +211,17 @@ def rest_wire_request(codec, full, rec, tmpl, body):
         for n in names[:-1]:
             d = d.setdefault(n, {})
         d[names[-1]] = v
+    if body and (rec["body"] or body != "*"):
+        try:
+            bj = json.loads(rec["body"] or "null")
+        except ValueError:
+            bj = None
+        if not isinstance(bj, dict):
+            problems.append(("http-body", f"body {rec['body'][:80]!r} is not a JSON object"))
+        elif body == "*":
+            merged.update(bj)
+        else:
+            merged[_resolve(desc, body)[0]] = bj
     bound = _tmpl_match(tmpl, urllib.parse.unquote(rec["path"]))
     if bound is None:
         problems.append(("http-path", f"path {rec['path']!r} does not match {tmpl!r}"))
@@ -225,17 +236,6 @@ def rest_wire_request(codec, full, rec, tmpl, body):
             problems.append(("http-query-case" if low else "http-query", f"query parameter {k!r} (of {rec['query']!r}) names no field of {full}"))
             continue
         put(names, v)
-    if body and (rec["body"] or body != "*"):
-        try:
-            bj = json.loads(rec["body"] or "null")
-        except ValueError:
-            bj = None
-        if not isinstance(bj, dict):
-            problems.append(("http-body", f"body {rec['body'][:80]!r} is not a JSON object"))
-        elif body == "*":
-            merged.update(bj)
-        else:
-            merged[body] = bj
     try:
         return codec.normal(full, merged), problems
     except Exception as e:  # json_format.ParseError: a name that is not a field of the message (body), a value of the wrong kind
@@ -367,6 +367,160 @@ def check_safe(ctx, w, quick=False):
             want_json = {json_name(k): ({json_name(kk): vv for kk, vv in v.items()} if isinstance(v, dict) else v) for k, v in want.items()}
             if body != want_json:
                 ctx.fail("wire:http-body", f"word {w!r}: REST body {body}, expected proto JSON names {want_json}", pl)
+
+
+# ---------------------------------------------------------------- proto file named by a keyword / control parameter: a whole API in it
+
+OP_FULL = "google.longrunning.Operation"
+
+
+def kwfile_words(w, o):
+    """the two field words of the keyword-file API: `p` = the FILE's own word when it is a reserved word as a field too (every keyword;
+    `metadata`, `retry`, `timeout`, `request` are invalid module names only, DESIGN §16), else `o`; `q` = another reserved word"""
+    res, _ = tables()
+    p = w if w in res else o
+    q = o if o != p else next(x for x in ("format", "type") if x != p)
+    return p, q
+
+
+def build_kwfile_api(w, o):
+    """API-C: `acme/lib/v1/<w>.proto` (module `<w>_`) holds EVERYTHING: request, response, LRO response and metadata types of methods whose
+    flattened parameters, path variables (top-level and dotted) and body fields are named by the same word and by another reserved word.
+    No RPC is named by the word (a module `class_` meeting the transport property of an RPC `Class` is excluded, DESIGN §16)."""
+    p, q = kwfile_words(w, o)
+    f = apigen.File(f"acme/lib/v1/{w}.proto", PKG)
+    item = f.msg("Item"); item.field("name", "string", 1); item.field(p, "string", 2); item.field(q, "string", 3)
+    c = f.msg("CreateItemRequest"); c.field("parent", "string", 1); c.field(p, "message", 2, type_name=item)
+    g = f.msg("GetItemRequest"); g.field(p, "string", 1); g.field(q, "string", 2)
+    u = f.msg("UpdateItemRequest"); u.field(q, "message", 1, type_name=item); u.field(p, "string", 2)
+    e = f.msg("ExportItemsRequest"); e.field(p, "string", 1); e.field(q, "string", 2)
+    er = f.msg("ExportItemsResponse"); er.field(p, "string", 1)
+    em = f.msg("ExportItemsMetadata"); em.field(q, "string", 1)
+    s = f.service("Library")
+    s.method("CreateItem", c, item, http=("post", "/v1/{parent=shelves/*}/items"), body=p, sigs=[f"parent,{p}"])
+    s.method("GetItem", g, item, http=("get", "/v1/{%s=items/*}" % p), sigs=[p, f"{p},{q}"])
+    s.method("UpdateItem", u, item, http=("patch", "/v1/{%s.name=items/*}" % q), body=q, sigs=[f"{q},{p}"])
+    s.method("ExportItems", e, "." + OP_FULL, http=("post", "/v1/{%s=items/*}:export" % p), body="*", sigs=[f"{p},{q}"],
+             lro=("ExportItemsResponse", "ExportItemsMetadata"))
+    return f
+
+
+def check_kwfile(ctx, w, o):
+    """every method of API-C called flattened and with `request=`, by the sync and the asyncio client over gRPC and by the REST client:
+    the call goes through, the server reads what the caller meant under the original names, LRO results come back in the file's types"""
+    import base64
+    from google.longrunning import operations_pb2
+    from google.protobuf import json_format
+    p, q = kwfile_words(w, o)
+    f = build_kwfile_api(w, o)
+    payload = {"word": w, "other": o, "api": "keyword-file"}
+    req = apigen.request([f], "transport=grpc+rest,autogen-snippets=false")
+    res, err = genrun.try_generate(req)
+    if err:
+        ctx.fail(f"keyword-file:generation:{err[0]}", f"file {w}.proto with fields {p!r}, {q!r}: generator raised {err[0]}: {err[1]}", payload)
+        return
+    api, _ = genrun.build_api(req)
+    svc = api.services[f"{PKG}.Library"]
+    loc = rpc.py_locations(api, svc)
+    codec = rpc.Codec([f])
+    ap, aq = attr(p), attr(q)
+    T = lambda m: rpc.py_type(svc.methods[m].input)
+    # T2: is the file's module aliased in each method's context? (`Service.with_context` -> `Method.with_context` -> `Address.module_alias`)
+    from google.api import client_pb2
+    ms = list(svc.methods.values())
+    fields = [[x.strip().split(".") for sg in m.options.Extensions[client_pb2.method_signature] for x in sg.split(",") if x.strip()] for m in ms]
+    mo = ctx.driver.ask([{"op": "c12.alias", "names": sorted(svc.names), "fields": fl, "module": m.input.ident.module} for m, fl in zip(ms, fields)])
+    for m, fl, a_ in zip(ms, fields, mo):
+        ctx.traces += 1
+        types = [("input", m.input)] + ([("lro response", m.lro.response_type), ("lro metadata", m.lro.metadata_type)] if getattr(m, "lro", None) else [("output", m.output)])
+        for role, t in types:
+            if t.ident.module == m.input.ident.module and bool(t.ident.module_alias) != a_["aliased"]:
+                ctx.disagree("T2:c12.module-alias", f"file {w}.proto, {m.name} ({role} type, flattened {fl}): module {t.ident.module!r} aliased as "
+                                                    f"{t.ident.module_alias!r}, model says aliased={a_['aliased']} under {a_['collisions']}", payload)
+    item = {"name": "items/i1", p: "pv", q: "qv"}
+    # the operation the server answers ExportItems with: done, response and metadata of the file's own types
+    op = operations_pb2.Operation(name="operations/o1", done=True)
+    op.response.type_url = f"type.googleapis.com/{PKG}.ExportItemsResponse"; op.response.value = codec.encode(f"{PKG}.ExportItemsResponse", {p: "exported"})
+    op.metadata.type_url = f"type.googleapis.com/{PKG}.ExportItemsMetadata"; op.metadata.value = codec.encode(f"{PKG}.ExportItemsMetadata", {q: "meta"})
+    op_b64 = base64.b64encode(op.SerializeToString()).decode()
+    op_json = json.dumps({"name": "operations/o1", "done": True,
+                          "response": {"@type": op.response.type_url, json_name(p): "exported"},
+                          "metadata": {"@type": op.metadata.type_url, json_name(q): "meta"}})
+
+    def C(tag, meth, m, val, kwargs, header, http, lro=False):
+        full = f"{PKG}.{m}Request"
+        c = {"tag": tag, "method": meth, "mode": "kwargs" if kwargs else "request-instance", "py_request": T(m),
+             "request_b64": codec.encode_b64(full, val), "expect": (full, val), "header": header, "http": http,
+             "path": f"/{PKG}.Library/{m}"}
+        if kwargs:
+            c["kwargs"] = kwargs
+        if lro:
+            c["consume"] = "lro"; c["lro"] = True
+        return c
+    calls = []
+    for flat in (True, False):
+        how = "flattened" if flat else "request="
+        calls += [
+            C(f"keyword file: body field + flattened message parameter ({how})", "create_item", "CreateItem", {"parent": "shelves/s", p: item},
+              [["parent", "parent"], [ap, ap]] if flat else None, "parent=shelves/s", ("/v1/{parent=shelves/*}/items", p)),
+            C(f"keyword file: path variable + flattened parameter ({how})", "get_item", "GetItem", {p: "items/i1", q: "qv"},
+              [[ap, ap], [aq, aq]] if flat else None, f"{p}=items/i1", ("/v1/{%s=items/*}" % p, None)),
+            C(f"keyword file: dotted path variable + body ({how})", "update_item", "UpdateItem", {q: item, p: "pv2"},
+              [[aq, aq], [ap, ap]] if flat else None, f"{q}.name=items/i1", ("/v1/{%s.name=items/*}" % q, q)),
+            C(f"keyword file: LRO with response and metadata types of the file ({how})", "export_items", "ExportItems", {p: "items/i1", q: "qv"},
+              [[ap, ap], [aq, aq]] if flat else None, f"{p}=items/i1", ("/v1/{%s=items/*}:export" % p, "*"), lro=True),
+        ]
+    calls.insert(2, C("keyword file: path variable + one flattened parameter", "get_item", "GetItem", {p: "items/i2"}, [[ap, ap]], f"{p}=items/i2",
+                      ("/v1/{%s=items/*}" % p, None)))
+    hidden = ("tag", "expect", "header", "path", "http", "lro")
+    gcalls = [dict({k: v for k, v in c.items() if k not in hidden}, **({"script": {c["path"]: [{"code": "OK", "replies": [op_b64]}]}} if c.get("lro") else {}))
+              for c in calls]
+    rcalls = [dict({k: v for k, v in c.items() if k not in hidden}, script=[{"status": 200, "body": op_json if c.get("lro") else "{}"}]) for c in calls]
+    root = genrun.materialise(res)
+    try:
+        out = libhost.run(root, [
+            {"op": "import_all", "package": loc["package"]},
+            {"op": "grpc_session", "client": loc["client"], "transport": loc["grpc"], "async": False, "calls": gcalls},
+            {"op": "rest_session", "client": loc["client"], "transport": loc["rest"], "calls": rcalls},
+            {"op": "grpc_session", "client": loc["async_client"], "transport": loc["grpc_asyncio"], "async": True, "calls": gcalls},
+        ], timeout=300)
+    finally:
+        genrun.cleanup(root)
+    imp = out[0]
+    if "child_error" in imp or imp.get("errors"):
+        ctx.fail("keyword-file:import", f"file {w}.proto with fields {p!r}, {q!r}: library does not import: {str(imp.get('errors') or imp)[:300]}", payload)
+        return
+
+    def lro_ok(c, r_, kind, pl):
+        if not c.get("lro") or "ok" not in r_:
+            return
+        got = (r_["ok"] or {}).get("result") or {}
+        if got.get("type") != f"{PKG}.ExportItemsResponse" or codec.decode(got["type"], got["b64"]) != {p: "exported"}:
+            ctx.fail("keyword-file:lro-result", f"file {w}.proto, {c['tag']} ({kind}): operation result {str(got)[:200]}, expected ExportItemsResponse {{{p!r}: 'exported'}}", pl)
+    for kind, sess in (("sync", out[1]), ("asyncio", out[3])):
+        if not check_grpc_calls(ctx, w, kind, sess, calls, payload, codec):
+            return
+        for c, r_ in zip(calls, sess["calls"]):
+            lro_ok(c, r_, kind, {**payload, "position": c["tag"], "client": kind})
+    rs = out[2]
+    if "calls" not in rs:
+        ctx.fail("keyword-file:session", f"file {w}.proto: REST session failed: {str(rs)[-300:]}", payload)
+        return
+    for c, r_ in zip(calls, rs["calls"]):
+        ctx.count("position", c["tag"] + ":rest")
+        pl = {**payload, "position": c["tag"], "client": "rest"}
+        if "ok" not in r_ or len(r_["server"]) != 1:
+            ctx.fail(f"position:{c['tag']}", f"word {w!r} as {c['tag']} (rest): {r_.get('raised')}: {r_.get('msg', '')[:160]}; {len(r_['server'])} server calls", pl)
+            continue
+        rec = r_["server"][0]
+        full, want = c["expect"]
+        got, problems = rest_wire_request(codec, full, rec, *c["http"])
+        for k, text in problems:
+            ctx.fail("rest-required-query-key-lowercased" if k == "http-query-case" else f"wire:{k}", f"word {w!r} as {c['tag']} (rest): {text}", pl)
+        if got is not None and got != codec.normal(full, want):
+            ctx.fail("wire:http-request", f"word {w!r} as {c['tag']} (rest): {rec['verb']} {rec['path']}?{rec['query']} body {rec['body'][:120]!r} reads as "
+                                          f"{got}, caller meant {codec.normal(full, want)}", pl)
+        lro_ok(c, r_, "rest", pl)
 
 
 def check_bad_positions(ctx, w):
@@ -582,6 +736,8 @@ def run(ctx):
     ctx.rule = ("finite space: every word of RESERVED_NAMES ∪ keyword.kwlist (+ soft keywords and control-parameter names) x positions "
                 "{top-level field, nested field, flattened parameter (top-level, dotted terminal, dotted non-terminal), http path variable "
                 "(top-level, dotted), http body, http query parameter (REQUIRED set/unset, nested, beside a body), routing field, rpc name, proto file name}; "
+                "a proto file named by each keyword / control parameter holding a whole API (request, response, LRO types; the same and another reserved "
+                "word as flattened parameter, path variable, body field; flattened and request=, sync/asyncio gRPC and REST); "
                 "every REST request is read back whole (path variables + query + body under the input descriptor); quick samples words, thorough enumerates all; "
                 "distinct by (word, position)")
     t2(ctx)
@@ -602,6 +758,16 @@ def run(ctx):
     for w in dict.fromkeys(sample):
         check_safe(ctx, w)
         ctx.case({"word": w, "api": "safe-positions"}, distinct_key=["safe", w])
+    # a proto file named by a keyword / control parameter that holds a whole API (requests, responses, LRO types; the same and another
+    # reserved word as flattened parameter, path variable, body field)
+    invalid = [x for x in sorted(set(kw) | {"metadata", "retry", "timeout", "request"}) if file_base_ok(x)]
+    rk = ctx.rng("keyword-files")
+    fres = [x for x in res if x.islower() and re.fullmatch(r"[a-z][a-z0-9_]*", x)]
+    kfiles = (["class", "import", "request"] + [rk.pick(invalid) for _ in range(3)]) if ctx.quick else invalid
+    for w in dict.fromkeys(kfiles):
+        for o in dict.fromkeys([rk.pick(fres) for _ in range(1 if ctx.quick else 3)]):
+            check_kwfile(ctx, w, o)
+            ctx.case({"word": w, "other": o, "api": "keyword-file"}, distinct_key=["kwfile", w, o])
     for shape in ("different-messages", "one-message", "nested"):
         check_module_collisions(ctx, shape)
         ctx.case({"api": "module-collision", "shape": shape}, distinct_key=["modcol", shape])
@@ -613,6 +779,10 @@ def run(ctx):
 def search(ctx):
     for w in words():
         check_safe(ctx, w)
+    res, kw = tables()
+    for w in sorted(set(kw) | {"metadata", "retry", "timeout", "request"}):
+        if file_base_ok(w):
+            check_kwfile(ctx, w, "type")
 
 
 def replay(ctx, payload):
@@ -621,6 +791,8 @@ def replay(ctx, payload):
     w = payload.get("word", "class")
     if payload.get("api") == "module-collision":
         check_module_collisions(ctx, payload.get("shape", "different-messages"))
+    elif payload.get("api") == "keyword-file":
+        check_kwfile(ctx, w, payload.get("other", "type"))
     elif payload.get("api") == "safe-positions":
         check_safe(ctx, w)
     else:
@@ -635,11 +807,14 @@ CLAIM = dict(
          "carries exactly one underscore exactly for reserved words, suffixing is stable and injective (under a stated hypothesis with "
          "counterexample), URI variables resolve at any depth, implicit-header and flattened keys resolve exactly under stated conditions "
          "(counterexample theorems for the rest), JSON names ignore the suffix, keyword RPC names and invalid proto file names get one "
-         "underscore, the REST required-field key `camel_case(attribute)` is the JSON name for every reserved word without a capital (counterexample: `None`). Tie: T1 bridge of the four tables and the snake_case regexes; T2 of every naming function over the whole tables; "
+         "underscore, the REST required-field key `camel_case(attribute)` is the JSON name for every reserved word without a capital (counterexample: `None`), the module of a keyword-named file is aliased in the context of every method that flattens the same keyword "
+         "(`Service.with_context` collision set = service names + suffixed flattened keys). Tie: T1 bridge of the four tables and the snake_case regexes; T2 of every naming function over the whole tables; "
          "T3 per word: generate, import, call over loopback gRPC/HTTP and check attribute names and wire names, REST requests reassembled from path, "
          "query string and body under the original proto/JSON names (exhaustive in thorough).",
     technique="Lean 4 theorems + `decide` over translator-bridged finite tables; differential T2; exhaustive T3 enumeration word x position",
     design="7.12",
-    note="Module-alias collisions across packages are exercised by T3 of C01/C02 profiles only; no theorem. Dotted http path variables with a "
+    note="Module-alias collisions across packages: T3 (three shapes) and T3 of C01/C02 profiles, no theorem; alias of a keyword-named file's module "
+         "against a flattened parameter of the same word: theorem + T2 (`c12.alias`) + T3. A module `class_` meeting the transport property of an "
+         "RPC `Class` stays excluded (DESIGN §16). Dotted http path variables with a "
          "reserved segment and reserved non-terminal flattened segments are wrong at HEAD (counterexample theorems; findings).",
 )
